@@ -26,7 +26,9 @@
     op pbcmpl.File             args [init, kind, [[off, [hasver, ver, payload]], ...]]
        for every placement in turn pbcmpl.Marshal(iohelper.AtToWriter(memfile, off), msg); then for every
        placement pbcmpl.Unmarshal(iohelper.AtToReader(memfile, off), blank message)  (kind: body codec of C06)
-       observation: [[[n, error class] ...], file content, [[n, version, error class, payload] ...]]
+       and finally repeated Unmarshal through ONE AtToReader(memfile, smallest off) until the first error or
+       (number of placements + 1) frames.
+       observation: [[[n, error class] ...], file content, [[n, version, error class, payload] ...], [stream steps likewise]]
        (error classes of C06: 0 nil, 1 io.EOF, 2 io.ErrUnexpectedEOF, 3/4 invalid header/body size, 6 decode)
        Domain: 0 <= off, every frame ends below 2^20; kind 1 (BytesValue): the frames do not overlap. *)
 From Coq Require Import ZArith List Bool String.
@@ -157,6 +159,8 @@ Fixpoint placements_disjoint (kind : Z) (ps : list placement) : bool :=
         (pe <=? fst q) || (qe <=? fst p)) t && placements_disjoint kind t
   end.
 
+Definition min_off (ps : list placement) : Z := fold_right (fun p m => Z.min (fst p) m) file_limit ps.
+
 Definition enc_mres (r : Z * option perr) : val := VL [VZ (fst r); v_err (snd r)].
 Definition enc_ures (r : Z * list Z * option perr * list Z) : val :=
   let '(n, ver, err, p) := r in VL [VZ n; vzs ver; v_err err; vzs p].
@@ -270,9 +274,10 @@ Definition ops_C18 : list opdef := [
                  match marshal_all kind init ps with
                  | None => VPanic
                  | Some (rs, f) =>
-                     match unmarshal_all kind f (map fst ps) with
-                     | None => VPanic
-                     | Some us => VL [VL (map enc_mres rs); vzs f; VL (map enc_ures us)]
+                     match unmarshal_all kind f (map fst ps), StreamAt kind f (min_off ps) (S (List.length ps)) with
+                     | Some us, Some st =>
+                         VL [VL (map enc_mres rs); vzs f; VL (map enc_ures us); VL (map enc_ures st)]
+                     | _, _ => VPanic
                      end
                  end
                else VBad
@@ -286,7 +291,8 @@ Definition ops_C18 : list opdef := [
                | None => VPanic
                | Some (rs, f) =>
                    VL [VL (map enc_mres rs); vzs f;
-                       VL (map (fun p => enc_ures (spec_unmarshal_at kind f (fst p))) ps)]
+                       VL (map (fun p => enc_ures (spec_unmarshal_at kind f (fst p))) ps);
+                       VL (map enc_ures (spec_stream_at kind f (min_off ps) (S (List.length ps))))]
                end
            | _, _ => VBad end
        | _ => VBad end) |}
